@@ -6,6 +6,9 @@ from mc.lib import matching
 ID = 'C02'
 LEVEL = 'model_checking'
 WANT = ('C02',)
+# fewer non-trivial cases than this share of all cases means that the
+# exploration has become vacuous (reported as INTERNAL-ERROR, never as a pass)
+MIN_NONTRIVIAL_FRACTION = 0.1
 RULE = (
     'Abstract instances: every bipartite candidate graph up to the stated '
     'size, every strict order of each storm\'s candidates, every weak (or '
